@@ -41,6 +41,9 @@ ASSUMPTIONS = [
     'outside the domain: tuple-valued axis, N-D trace, list-valued shapes, advanced (integer-array / boolean) indexing, '
     'x.reshape(a, b) with unpacked dimensions, empty (0-sized) axes in the operand, non-finite data, triu/tril of rank-1 input',
     'D <= 4, P <= 3, rank <= 4, sides 1..4 (1..3 for rank 4)',
+    'thorough tier: bucket "atheris" drives the byte-decoded getitem/setitem target (bucket "bytes") under atheris/libFuzzer '
+    '(200000 runs, -seed=VERIF_SEED, algopy instrumented); atheris is not provisioned by the shared bootstrap - when it cannot be '
+    'imported the stage is counted as inconclusive and the Hypothesis byte bucket alone covers that target',
 ]
 
 SL = slice(None)
@@ -216,6 +219,8 @@ def view_checks(case, stats, y, x, m, viewfn, buf, mbuf, what):
     w = case.get('write')
     if w is not None:
         stats.event('view:write-through')
+        if w.get('steered'):
+            stats.exclude(w['steered'])
         write_through(y, m, viewfn, buf, mbuf, w, what)
 
 
@@ -392,13 +397,16 @@ def write_st(draw, D, P, rshape):
     if int(np.prod(rshape, dtype=int)) == 0:
         return None
     idx2 = draw(index_st(rshape, draw(st.sampled_from(['tuple', 'tuple', 'bare']))))
-    idx2, _ = _steer_setitem_idx(idx2)
+    idx2, steered = _steer_setitem_idx(idx2)
     t = np.empty(rshape)[idx2]
     tshape = np.shape(t)
     if int(np.prod(tshape, dtype=int)) == 0:
         return None
     kind = draw(st.sampled_from(['utpm', 'scalar', 'ndarray', 'utpm-bcast']))
-    return {'idx': idx2, 'value': draw(value_st(kind, D, P, tshape))}
+    w = {'idx': idx2, 'value': draw(value_st(kind, D, P, tshape))}
+    if steered:
+        w['steered'] = steered
+    return w
 
 
 # ---------------------------------------------------------------------------
@@ -1118,6 +1126,61 @@ def bytes_cases():
 
 
 # ---------------------------------------------------------------------------
+# thorough tier: the same byte-level target under atheris (coverage-guided), when atheris is installed
+# ---------------------------------------------------------------------------
+
+def _atheris_dirs():
+    import os
+    from .. import env
+    return [d for d in (os.path.join(env.VERIF, '.deps', 'early'), os.environ.get('VERIF_ATHERIS_DIR', '')) if d and os.path.isdir(d)]
+
+
+def prop_atheris(case, stats):
+    import os, sys, glob, json, shutil, tempfile, subprocess, hashlib
+    from .. import env, codec
+    probe = subprocess.run([sys.executable, '-B', '-c', 'import sys; sys.path[1:1] = %r; import atheris' % (_atheris_dirs(),)],
+                           capture_output=True)
+    if probe.returncode != 0:
+        stats.event('atheris:not-installed')
+        raise Inconclusive('atheris is not installed (the shared bootstrap does not provide it); stage skipped')
+    art = tempfile.mkdtemp(prefix='c13-atheris-')
+    try:
+        cmd = [sys.executable, '-B', '-m', 'vlib.checks._c13_fuzz', art, '-runs=%d' % case['runs'], '-seed=%d' % case['seed']]
+        e = dict(os.environ, PYTHONHASHSEED='0')
+        try:
+            r = subprocess.run(cmd, cwd=env.VERIF, env=e, capture_output=True, timeout=1500)
+        except subprocess.TimeoutExpired:
+            raise Inconclusive('atheris stage timed out')
+        crashes = sorted(glob.glob(os.path.join(art, 'crash-*')))
+        tail = r.stderr.decode('utf-8', 'replace')[-1500:]
+        if not crashes:
+            if r.returncode != 0:
+                raise Inconclusive('atheris driver failed without an artifact: ' + tail[-400:])
+            stats.event('atheris:completed-%d-runs' % case['runs'])
+            return
+        with open(crashes[0], 'rb') as f:
+            data = list(f.read())
+        msg = 'atheris found a violating input'
+        try:
+            prop_bytes({'bytes': data}, stats)
+        except Violation as v:
+            msg = str(v)
+        d = os.path.join(env.OUT, 'replays', PID, 'found')
+        os.makedirs(d, exist_ok=True)
+        path = os.path.join(d, 'bytes-atheris-%s.json' % hashlib.sha1(bytes(data)).hexdigest()[:10])
+        with open(path, 'w') as f:
+            json.dump({'property': PID, 'bucket': 'bytes', 'msg': msg, 'case': codec.enc({'bytes': data})}, f, indent=1, sort_keys=True)
+        raise Violation('atheris (seed %d): input bytes %r (also saved as %s): %s' % (case['seed'], data, path, msg))
+    finally:
+        shutil.rmtree(art, ignore_errors=True)
+
+
+def atheris_cases():
+    import os
+    return st.just({'stage': 'atheris', 'runs': 200000, 'seed': int(os.environ.get('VERIF_SEED', '1'))})
+
+
+# ---------------------------------------------------------------------------
 
 def buckets(tier):
     B = []
@@ -1149,4 +1212,6 @@ def buckets(tier):
     add('zeros_ones_like', lambda: construct_cases('like'), prop_construct, 240, 2000, nt_construct, cls_construct)
     add('reject', reject_cases, prop_reject, 400, 2000, nt_op, cls_reject)
     add('bytes', bytes_cases, prop_bytes, 1200, 20000, nt_bytes, cls_bytes, 2.0, 4)
+    if tier == 'thorough':
+        add('atheris', atheris_cases, prop_atheris, 1, 1, (lambda case: False), (lambda case: ['stage=atheris']), 1e6)
     return B
